@@ -186,7 +186,7 @@ def conjunction(V, i):
     V.cover('accept' if acc(r) else 'reject')
 
 
-@per_left_leaf('union-in-conjunction', marks=['accept'], budget=(150, 400),
+@per_left_leaf('union-in-conjunction', marks=['accept'], budget=(260, 600),
     bounds='AllOf(AnyOf(L, R), S): equals S applied to the result of AnyOf(L, R) taken alone (a union that only succeeds in a '
            'late stage, after other arguments failed, must not leave its intermediate errors behind); L fixed, R solver-picked among 10, S among {Ge, Str}'
            'solver-picked; also under collect_errors',
